@@ -181,6 +181,7 @@ func history(r *mon.Run, c Case) {
 		}
 	}
 	sharedOpts := &ed25519.Options{}
+	var keyBuf [32]byte
 	// cancelling forgeries: k individually invalid entries (R_i, S_i + d_i) with d_1 + ... + d_k = 0 (mod L) built from
 	// valid signatures without any secret. A sound batch equation weights every entry with its own unpredictable
 	// coefficient and rejects them; one whose coefficients coincide (or repeat with a period) accepts the set.
@@ -271,6 +272,12 @@ func history(r *mon.Run, c Case) {
 			return append(make([]byte, 0, len(b)+8), b...)
 		}
 		cpk, cmsg, csig := ed25519.PublicKey(clone(pk)), clone(msg), clone(sig)
+		recycled := len(pk) == 32 && rng.IntN(2) == 0
+		if recycled {
+			// ... or the caller keeps ONE key buffer for the whole history and copies each key into it before Add
+			copy(keyBuf[:], pk)
+			cpk = ed25519.PublicKey(keyBuf[:])
+		}
 		co := *o
 		pco := &co
 		reuse := rng.IntN(2) == 0
@@ -295,6 +302,9 @@ func history(r *mon.Run, c Case) {
 			}
 		}
 		for _, b := range [][]byte{cpk, cmsg} {
+			if recycled && len(b) > 0 && &b[0] == &keyBuf[0] {
+				continue // left as it is until the next key is copied in
+			}
 			for i := range b {
 				b[i] ^= 0xff
 			}
